@@ -59,6 +59,10 @@ def check(repo: Repo) -> Result:
 
     r12 = res.rule("C04-R12", "the coefficient the multiply / divide unit rules split off belongs to the unit it was split from: as_coeff_unit returns (c, u') with scale(u') = scale(u) / c computed from the unit's own scale, not looked up again in a registry whose definition may differ (shared with C02-R3)", floor=4)
     share(res, r12, "C02", lambda t: c02.homomorphism(repo, t), ["C02-R3"], want=lambda k: k.startswith("as_coeff_unit:"), min_keys=4)
+    from rules import c01
+
+    r14 = res.rule("C04-R14", "every ufunc that adds, compares or otherwise combines its two operands as numbers of one kind (add, subtract, hypot, maximum, less, arctan2, ...) maps to a unit rule of the set for which the second operand is rescaled into the first operand's unit: a rule outside that set - however careful about dimensions - evaluates on the raw numbers (np.hypot(3 km, 4000 m) near 4000 km) (shared with C01-R1)", floor=15)
+    share(res, r14, "C01", lambda t: c01.classification(repo, t, anchors), ["C01-R1"], want=lambda k: "->" in k or k == "lookup", min_keys=15)
     r11 = res.rule("C04-R11", "an operand without units is given the null unit (scale 1, dimensionless), never the other operand's unit", floor=4)
     missing_unit_rule(anchors, res, r11)
     return res
